@@ -47,6 +47,7 @@ From V Require Import Calc.TaskBoxDefs.
 From V Require Import Proto.EventV2Defs.
 From V Require Import Arith.PolicyDefs.
 From V Require Import Calc.TraitsMultiDefs.
+From V Require Import Proto.EpollTimerDefs.
 Extraction Blacklist List String Int.
 Cd "../ocaml".
 Extraction "model.ml"
@@ -297,6 +298,13 @@ Extraction "model.ml"
   TraitsMulti.tr_stop_when
   TraitsMulti.rt_stop_when
   TraitsMulti.stop_when_obs
+  EpollTimer.step
+  EpollTimer.init
+  EpollTimer.completions
+  EpollTimer.ids
+  EpollTimer.io_blocked
+  EpollTimer.quiescent
+  EpollTimer.all_done
   SCalc.via_stream
   SCalc.typed_via_stream
   SCalc.on_stream
